@@ -24,10 +24,13 @@ pub fn to_listing(
             let mut data = vec![];
             for offset in &offsets {
                 for segment in ctx.segments().values() {
-                    if segment.range().start <= offset.pc.start
-                        && segment.range().end >= offset.pc.end
-                    {
-                        let mut start = offset.pc.start - segment.range().start;
+                    // The source map contains the addresses the code will run at, which is not where the segment
+                    // stores its data when it has a 'pc' option. So, look at where the segment ends up.
+                    let target_start =
+                        (segment.range().start as i64 + segment.target_offset()) as usize;
+                    let target_end = (segment.range().end as i64 + segment.target_offset()) as usize;
+                    if target_start <= offset.pc.start && target_end >= offset.pc.end {
+                        let mut start = offset.pc.start - target_start;
                         let end = start + (offset.pc.end - offset.pc.start);
 
                         let mut pc = offset.pc.start;
